@@ -447,6 +447,9 @@ func (e *Engine) verifyUnit(c *Contract) *UnitResult {
 	if c.IsLemma {
 		return e.verifyLemma(c)
 	}
+	if c.IsGuard {
+		return e.verifyGuard(c)
+	}
 	res := &UnitResult{Contract: c, Theory: c.Theory}
 	u, err := e.findUnit(c)
 	if err != nil {
